@@ -11,7 +11,7 @@ COLOURS = ['aqua', 'black', 'blue', 'fuchsia', 'gray', 'green', 'lime', 'maroon'
            'white', 'yellow']
 RULE = ("stateful: two live objects (a sequence and its reversal; N=1..130 so that 10- and 50-blocks both occur) x a history of up to 8 (quick) / 15 (thorough) calls from "
         "{set_HTMLColorResiduePalette(d) with d valid (20 keys -> lower-case names from the 17, possibly extra keys) or invalid (one key "
-        "missing; one value not a colour name: 'pink', '', '#ff0000', None, 'Red '), render}; model palette updated only by valid dictionaries; "
+        "missing; one value not a colour name: 'pink', '', '#ff0000', None, 'Red '), render}; a third of the updates pass one caller-owned dictionary object that is refilled, and possibly edited further after the call; a missing amino acid may be hidden behind extra keys; model palette updated only by valid dictionaries; "
         "every render is tokenised: N spans in order with residue i and colour model[residue]; a space before token i iff i%10==0; a <br> "
         "before token i iff i%50==0; nothing else inside the <p>; stripping tags and blanks recovers the sequence. enum: N in 1..130 with the "
         "default palette. Non-trivial: N>10 with >=1 palette change before a render; distinct by (sequence, history).")
@@ -60,6 +60,7 @@ class Sim:
         self.models = [dict(DEFAULT), dict(DEFAULT)]
         self.changes = 0
         self.rejected = 0
+        self.caller = {}         # a caller-owned dictionary that is edited in place and submitted again
         self.render_all("initial render")
 
     def render_all(self, what):
@@ -71,7 +72,12 @@ class Sim:
             self.render_all("render after %d palette change(s)" % self.changes)
             return
         k = args.get("obj", 0) % 2
-        d = dict(args["palette"])
+        if args.get("reuse"):
+            self.caller.clear()
+            self.caller.update(args["palette"])
+            d = self.caller
+        else:
+            d = dict(args["palette"])
         valid = all(a in d for a in ref.AA) and all(isinstance(d[a], str) and d[a] in COLOURS for a in ref.AA)
         ok, res = util.exc_name(self.objs[k].set_HTMLColorResiduePalette, d)
         if valid:
@@ -81,6 +87,12 @@ class Sim:
         else:
             self.ctx.check(not ok, "invalid-palette-accepted", "invalid palette (%s) accepted: %r" % (args.get("why"), d))
             self.rejected += 1
+        if args.get("reuse") and args.get("edit_after"):
+            # the caller goes on editing ITS dictionary after the call: the object must have taken a copy
+            a, col = args["edit_after"]
+            self.caller[a] = col
+            if args.get("drop_after"):
+                self.caller.pop(args["drop_after"], None)
         # a rejected dictionary must leave the palette unchanged; an accepted one must take effect on that object only
         self.render_all("render after %s palette on object %d" % ("valid" if valid else "rejected (%s)" % args.get("why"), k))
 
@@ -93,18 +105,31 @@ class Sim:
 @st.composite
 def palettes(draw):
     d = {a: draw(st.sampled_from(COLOURS)) for a in ref.AA}
-    how = draw(st.sampled_from(["valid", "valid", "valid-extra", "missing", "bad-colour", "late-bad-colour"]))
+    how = draw(st.sampled_from(["valid", "valid", "valid-extra", "missing", "missing-extra", "bad-colour", "late-bad-colour"]))
     if how == "valid-extra":
         d[draw(st.sampled_from(["X", "B", "a", "*", "AA"]))] = draw(st.sampled_from(COLOURS + ["pink"]))
         how = "valid"
     elif how == "missing":
         del d[draw(st.sampled_from(list(ref.AA)))]
+    elif how == "missing-extra":
+        # an amino acid is missing although the dictionary still has 20 or more entries
+        gone = draw(st.sampled_from(list(ref.AA)))
+        del d[gone]
+        for kx in draw(st.lists(st.sampled_from(["X", "B", "Z", gone.lower(), "*"]), min_size=1, max_size=3, unique=True)):
+            d[kx] = draw(st.sampled_from(COLOURS))
     elif how == "bad-colour":
         d[draw(st.sampled_from(list(ref.AA)))] = draw(st.sampled_from(["pink", "", "#ff0000", None, "Red ", "cyan", "grey", " red", 5]))
     elif how == "late-bad-colour":
         # the invalid entry is the alphabetically last amino acid: a key-by-key commit would already have changed earlier ones
         d[draw(st.sampled_from(["Y", "W", "V"]))] = "pink"
-    return {"palette": d, "why": how, "obj": draw(st.integers(0, 1))}
+    out = {"palette": d, "why": how, "obj": draw(st.integers(0, 1))}
+    if draw(st.integers(0, 2)) == 0:
+        out["reuse"] = True
+        if draw(st.booleans()):
+            out["edit_after"] = [draw(st.sampled_from(list(ref.AA))), draw(st.sampled_from(COLOURS + ["pink"]))]
+            if draw(st.integers(0, 3)) == 0:
+                out["drop_after"] = draw(st.sampled_from(list(ref.AA)))
+    return out
 
 
 OPS = {"palette": palettes(), "render": st.just(None)}
